@@ -19,5 +19,5 @@ CONSTANTS
   UnlockedKinds = {"StopPodSandbox", "Synchronize", "RemovePodSandbox"}
   OldOrder = FALSE
 SYMMETRY Symm
-INVARIANTS TypeOKLock Inv_AtMostOne Inv_MutexLocking Inv_EventView
+INVARIANTS TypeOKLock Inv_AtMostOne Inv_MutexLocking Inv_EventView Inv_SeqView
 CHECK_DEADLOCK TRUE
